@@ -160,7 +160,7 @@ func hammer(p program) (sig, msg string) {
 
 // ownDocs: configurations a worker puts on a filtered registry of its own (each changes the verdict of one
 // configurable lint on suitable objects).
-var ownDocs = []string{"[w_subject_contains_html_entities]\nSkip = true\n", "[e_subj_orgunit_in_ca_cert]\nCrossCert = true\n", "[e_crl_next_update_invalid]\nSubscriberCRL = false\n",
+var ownDocs = []string{"[e_subj_contains_html_entities]\nSkip = true\n", "[e_subj_orgunit_in_ca_cert]\nCrossCert = true\n", "[e_crl_next_update_invalid]\nSubscriberCRL = false\n",
 	"[e_rsa_fermat_factorization]\nRounds = 0\n"}
 
 var (
@@ -181,7 +181,7 @@ func sensitiveObjects() []engine.Case {
 		objs = append(objs, gen.Obj{Name: "built-crl-100d", Kind: gen.CRL, DER: gen.BuildCRL(gen.CRLSpec{V2: true, ThisUpdate: this, NextUpdate: &next, CRLNumber: &num, AKI: true})})
 		g := lint.GlobalRegistry()
 		// one lint at a time (the configurable lint named by the document), so the scan stays cheap under the race detector
-		names := []string{"w_subject_contains_html_entities", "e_subj_orgunit_in_ca_cert", "e_crl_next_update_invalid", "e_rsa_fermat_factorization"}
+		names := []string{"e_subj_contains_html_entities", "e_subj_orgunit_in_ca_cert", "e_crl_next_update_invalid", "e_rsa_fermat_factorization"}
 		for di, d := range ownDocs {
 			if di >= len(names) {
 				break
